@@ -270,6 +270,15 @@ func genC18(e *emitter, tier string) {
 	for _, op := range []string{"Gelu", "", "relu", "Identity", "MaxPool", "Dropout", "Conv2D", "LayerNormalization", " Relu", "Relu ", "Relu\n", "\tAbs", "RELU", "Relu6", "Rel", "ai.onnx.Relu", "Relu:13"} {
 		e.emit(graphCase("unknown-op", &GraphJ{Inputs: vin, Nodes: []NodeJ{{Op: "Relu", Ins: []string{"x"}, Outs: []string{"a"}}, {Op: op, Ins: []string{"a"}, Outs: []string{"y"}}, {Op: "Relu", Ins: []string{"y"}, Outs: []string{"z"}}}, Outputs: []string{"z"}}, []NamedT{x}))
 		e.emit(graphCase("unknown-op", &GraphJ{Inputs: vin, Nodes: []NodeJ{{Op: op, Ins: []string{"x"}, Outs: []string{"unused"}}, {Op: "Relu", Ins: []string{"x"}, Outs: []string{"z"}}}, Outputs: []string{"z"}}, []NamedT{x}))
+		// the unknown node waits for a tensor only it (or a node behind it) writes; the unknown node comes first
+		e.emit(graphCase("unknown-op", &GraphJ{Inputs: vin, Nodes: []NodeJ{{Op: "Relu", Ins: []string{"x"}, Outs: []string{"y"}}, {Op: op, Ins: []string{"y", "s"}, Outs: []string{"s"}}}, Outputs: []string{"y"}}, []NamedT{x}))
+		e.emit(graphCase("unknown-op", &GraphJ{Inputs: vin, Nodes: []NodeJ{{Op: "Relu", Ins: []string{"x"}, Outs: []string{"y"}}, {Op: op, Ins: []string{"y", "t"}, Outs: []string{"s"}}, {Op: "Relu", Ins: []string{"s"}, Outs: []string{"t"}}}, Outputs: []string{"y"}}, []NamedT{x}))
+		e.emit(graphCase("unknown-op", &GraphJ{Inputs: vin, Nodes: []NodeJ{{Op: op, Ins: []string{"y"}, Outs: []string{"s"}}, {Op: "Relu", Ins: []string{"x"}, Outs: []string{"y"}}}, Outputs: []string{"y"}}, []NamedT{x}))
+		// the same Model run three times: every Run fails the same way (a fresh model fails, so must this one)
+		{
+			gk := &GraphJ{Inputs: vin, Nodes: []NodeJ{{Op: "Abs", Ins: []string{"x"}, Outs: []string{"y"}}, {Op: op, Ins: []string{"y"}, Outs: []string{"z"}}}, Outputs: []string{"y"}}
+			e.emit(historyCase("unknown-op-every-run", func() (*gonnx.Model, error) { return loadModel(gk) }, gk, []HistStep{{Inputs: []NamedT{x}}, {Inputs: []NamedT{x}}, {Reuse: true}}))
+		}
 		// the caller also hands in tensors named like the outputs of the unknown node (and of other nodes)
 		e.emit(graphCase("unknown-op", &GraphJ{Inputs: vin, Nodes: []NodeJ{{Op: "Relu", Ins: []string{"x"}, Outs: []string{"a"}}, {Op: op, Ins: []string{"a"}, Outs: []string{"y"}}, {Op: "Relu", Ins: []string{"y"}, Outs: []string{"z"}}}, Outputs: []string{"z"}},
 			[]NamedT{x, {"y", smallT("f32", []int{2, 2}, 2)}, {"a", smallT("f32", []int{2, 2}, 3)}}))
